@@ -2,7 +2,7 @@
   Props/C03.lean — C03: privileged operations require the right authority.
   Role names and the system-contract address are spec literals, checked against the regenerated constants.
 -/
-import Proofs.Authority
+import Proofs.Only
 import Facts.Generated
 namespace C03
 open Esdt
@@ -79,49 +79,8 @@ theorem handover_authority (env : Env) (c : Call) (ctx ctx' : Ctx) (out : VMOutp
     of every account untouched, whoever calls it -/
 theorem roles_change_only_through (f : FnId) (hf : f ≠ .setRole ∧ f ≠ .unSetRole ∧ f ≠ .nftCreateRoleTransfer)
     (env : Env) (c : Call) (ctx ctx' : Ctx) (out : VMOutput) (h : exec env f c ctx = .ok (out, ctx')) (a tok : Bytes) :
-    ctx'.accts.read a (roleKeyPrefix ++ tok) = ctx.accts.read a (roleKeyPrefix ++ tok) := by
-  unfold exec at h
-  have r := Frame.refl
-  have nokey : ∀ (n : Bool) (t s : Bytes), roleKeyPrefix ++ tok ≠ esdtKeyPrefix ++ t ++ s := by
-    intro n t s he
-    have := congrArg (List.take 7) he
-    simp [esdtKeyPrefix, roleKeyPrefix, ascii] at this
-  have nononce : ∀ t : Bytes, roleKeyPrefix ++ tok ≠ nonceKeyPrefix ++ t := by
-    intro t he
-    have := congrArg (List.take 7) he
-    simp [nonceKeyPrefix, roleKeyPrefix, ascii] at this
-  have tf : ∀ n, ¬ tokenFootprint false n c a (.key (roleKeyPrefix ++ tok)) := by
-    rintro n ⟨_, t, _, ⟨s, hs⟩ | ⟨hr, _⟩ | ⟨_, hn⟩⟩
-    · exact nokey n t s hs
-    · cases hr
-    · exact nononce t hn
-  obtain ⟨h1, h2, h3⟩ := hf
-  cases f <;> simp only [runFn] at h
-  · exact (frame_claimDeveloperRewards env c ctx _ (r _ _)).elim h a (.key _) (by simp [acctFootprint])
-  · exact (frame_changeOwnerAddress env c ctx _ (r _ _)).elim h a (.key _) (by simp [acctFootprint])
-  · exact (frame_setUserName env c ctx _ (r _ _)).elim h a (.key _) (by simp [acctFootprint])
-  · apply (frame_saveKeyValue env c ctx _ (r _ _)).elim h a (.key _)
-    simp only [skvFootprint]; rintro ⟨_, _, hal⟩
-    simp [isAllowedToSaveUnderKey, protectedPrefix, roleKeyPrefix, ascii] at hal; omega
-  · exact (frame_esdtPause true env c ctx _ (r _ _)).elim h a (.key _) (tf _)
-  · exact (frame_esdtPause false env c ctx _ (r _ _)).elim h a (.key _) (tf _)
-  · exact (frame_esdtTransfer env c ctx _ (r _ _)).elim h a (.key _) (tf _)
-  · exact (frame_esdtBurn env c ctx _ (r _ _)).elim h a (.key _) (tf _)
-  · exact (frame_esdtFreezeWipe .freeze env c ctx _ (r _ _)).elim h a (.key _) (tf _)
-  · exact (frame_esdtFreezeWipe .unfreeze env c ctx _ (r _ _)).elim h a (.key _) (tf _)
-  · exact (frame_esdtFreezeWipe .wipe env c ctx _ (r _ _)).elim h a (.key _) (tf _)
-  · exact absurd rfl h2
-  · exact absurd rfl h1
-  · exact (frame_esdtLocalBurn env c ctx _ (r _ _)).elim h a (.key _) (tf _)
-  · exact (frame_esdtLocalMint env c ctx _ (r _ _)).elim h a (.key _) (tf _)
-  · exact (frame_esdtNFTAddQuantity env c ctx _ (r _ _)).elim h a (.key _) (tf _)
-  · exact (frame_esdtNFTBurn env c ctx _ (r _ _)).elim h a (.key _) (tf _)
-  · exact (frame_esdtNFTCreate env c ctx _ (r _ _)).elim h a (.key _) (tf _)
-  · exact (frame_esdtNFTTransfer env c ctx _ (r _ _)).elim h a (.key _) (tf _)
-  · exact absurd rfl h3
-  · exact (frame_esdtNFTUpdateAttributes env c ctx _ (r _ _)).elim h a (.key _) (tf _)
-  · exact (frame_esdtNFTAddURI env c ctx _ (r _ _)).elim h a (.key _) (tf _)
-  · exact (frame_multiTransfer env c ctx _ (r _ _)).elim h a (.key _) (tf _)
+    ctx'.accts.read a (roleKeyPrefix ++ tok) = ctx.accts.read a (roleKeyPrefix ++ tok) :=
+  roles_only_through f hf env c ctx ctx' out h a tok
 
 /-- ChangeOwnerAddress and ClaimDeveloperRewards take effect (on the shard of the contract) only for the contract's
     current owner; SetUserName only for a configured DNS address.  An attempt by anyone else is an error, hence — with the
